@@ -1,15 +1,21 @@
 import MJ.Proofs.EvalFrame
 import MJ.Proofs.StmtSim
 import MJ.Proofs.C03Tables
+import MJ.Model.VmM
 /-!
 # C03 — core constructs render according to the documented semantics
 
 Stage 3 (partial): `vm_refines_eval_partial` — the model VM running the code of the model code
-generator refines the reference semantics on the fragment `Fragment` (text, `{{ e }}`, `set x = e`,
-`if`/`elif`/`else`; expressions with constant folding, short-circuit `and`/`or`, conditional
-expressions, filters, tests, attribute/item access, list and map literals, chained comparisons; no call).  `C03_full` states the theorem for everything the model generator compiles (loops,
-`with`, captures, `break`/`continue`, …); beyond the fragment it is *checked* on every generated
-program (model VM vs. `exec` vs. the engine) but not yet proved.
+generator refines the reference semantics on the fragment `Fragment`: text, `{{ e }}`, `set`
+(with unpacking), set-blocks and filter-blocks with filter chains, `if`/`elif`/`else`, `with`,
+`for … if … else` with unpacking targets and loop filter, `break` and `continue` (also out of
+`with` / capture scopes); expressions with constant folding, short-circuit `and`/`or`, conditional
+expressions, filters, tests, attribute/item access, list and map literals, chained comparisons —
+every construct of the modelled language except macros, call blocks and calls.  `C03_full` states
+the theorem for everything the model generator compiles, on the extended model VM `MJ.VmM` (macro
+objects with closures, `prepare_args`, the live loop object); beyond the fragment it is *checked*
+on every generated program (extended model VM vs. `exec` vs. the engine, model code vs. the real
+instruction stream) but not proved.
 
 Stage 1: laws of the reference semantics `MJ.Eval.exec` (`MJ/Model/Eval.lean`).  Each law is an
 unbounded theorem (all programs / bodies / lists / states / fuel values) and is followed by an
@@ -279,15 +285,17 @@ theorem iteration_scope (n : Nat) (ctx : Scope) (stack : List Nat) (σ : State) 
 
 /-! ## Refinement: compiled code on the VM vs. the reference semantics -/
 
-/-- The full statement: for every template the model code generator compiles (everything but
-macros, call blocks and calls) and every context, the model VM on the generated code renders what
-the reference semantics renders. -/
+/-- The full statement: for every template the model code generator compiles (macros, call blocks
+and calls included) and every context, the extended model VM on the generated code renders what
+the reference semantics renders.  Not proved (checked on every generated program). -/
 def C03_full : Prop :=
   ∀ (prog : List Stmt) (ctx : Scope) (code : List MJ.Compile.Instr) (fuel : Nat) (out : String),
     MJ.Compile.compileTemplate prog = some code → renderTemplate fuel ctx prog = .ok out →
-    ∃ k, ∀ j, MJ.Vm.renderCode (k + j) ctx code = .ok out
+    ∃ k, ∀ j, MJ.VmM.renderCodeM (k + j) ctx code = .ok out
 
-/-- the proved part: templates of `MJ.Vm.Fragment` -/
+/-- the proved part: templates of `MJ.Vm.Fragment` (everything but macros, call blocks and calls),
+on the macro-free model VM `MJ.Vm` (the extended VM `MJ.VmM` agrees with it on every generated
+program of the fragment) -/
 theorem vm_refines_eval_partial (prog : List Stmt) (hfrag : MJ.Vm.Fragment prog) (ctx : Scope)
     (code : List MJ.Compile.Instr) (hcode : MJ.Compile.compileTemplate prog = some code) (fuel : Nat)
     (out : String) (hev : renderTemplate fuel ctx prog = .ok out) :
@@ -311,10 +319,22 @@ theorem asConst_sound {e : Expr} {v : Val} (h : MJ.Compile.asConst e = .val v) (
   MJ.Compile.asConst_sound h n ctx heap stack
 
 /-- the back-patching generator (absolute targets patched through `pending`) emits exactly the
-structured code with resolved targets -/
-theorem codegen_eq_structured (prog : List Stmt) (h : MJ.Compile.simpleBlock prog = true) (g : MJ.Compile.CG) :
-    MJ.Compile.cBlock prog g = g.extend (MJ.Compile.relBlock prog g.next g.aux) :=
-  MJ.Compile.cBlock_eq_rel prog g h
+structured code with resolved targets; inside a loop (`lc`) the `break` jumps of the block are
+still placeholders that are recorded in the pending entry of the loop (`withBreaks`) — the loop
+patches them when it ends (`relBlock_patched`) -/
+theorem codegen_eq_structured (prog : List Stmt) (g : MJ.Compile.CG) (lc : Option MJ.Compile.LoopCtx)
+    (h : MJ.Compile.simpleBlock lc.isSome prog = true) (hc : MJ.Compile.Compat g.pending lc) :
+    MJ.Compile.cBlock prog g =
+      (g.extend (MJ.Compile.relBlock prog g.next g.aux (MJ.Compile.setExit 0 lc)).1).withBreaks
+        (MJ.Compile.relBlock prog g.next g.aux (MJ.Compile.setExit 0 lc)).2 :=
+  MJ.Compile.cBlock_eq_rel prog g lc h hc
+
+/-- a whole template: no placeholders are left -/
+theorem codegen_eq_structured_top (prog : List Stmt) (h : MJ.Compile.simpleBlock false prog = true) :
+    MJ.Compile.cBlock prog {} = ({} : MJ.Compile.CG).extend (MJ.Compile.relBlock prog 0 {} none).1 := by
+  have h' := MJ.Compile.cBlock_eq_rel prog {} none h trivial
+  rw [h', MJ.Compile.CG.withBreaks_eq]
+  simp [MJ.Compile.foldl_addBreakJump_nil, MJ.Compile.CG.extend, MJ.Compile.CG.next, MJ.Compile.setExit]
 
 /-! ## Non-vacuity: concrete instances, evaluated by the kernel -/
 
@@ -372,8 +392,8 @@ example : ∃ σ', exec 6 [] [0] { heap := [[]], out := "" }
     lookup [] σ'.heap [0] "x" = some (.int 3) ∧ σ'.out = "" :=
   set_in_if_persists (m := 2) (cv := .bool true) (by rfl) (by rfl) (by rfl) (by decide)
 
-/-- a template of the fragment with short-circuit operators, constant folding, an `if` expression
-and `elif`: hypotheses of `vm_refines_eval_partial` hold, and the VM indeed renders the same -/
+/-- a template of the fragment with short-circuit operators, constant folding, an `if` expression,
+`elif`, loop filters, `break` and `continue`: hypotheses of `vm_refines_eval_partial` hold, and the VM indeed renders the same -/
 private def fragProg : List Stmt :=
   [.set (.var "x") (.binop .add (ci 2) (ci 3)),
    .ifS (.binop .and (.var "x") (.binop .gt (.var "x") (ci 9))) [.text "big"]
@@ -394,14 +414,23 @@ private def fragProg : List Stmt :=
    .emit (.cmp (ci 1) [(.lt, .var "q"), (.gt, .var "r"), (.eq, .getattr (.var "nope") "boom")]),
    .forS (.var "f") (.list [ci 1, ci 2, ci 3, ci 4]) (some (.test "odd" (.var "f") []))
      [.emit (.var "f"), .emit (.getattr (.var "loop") "length")] [.text "none"],
-   .forS (.var "f") (.list [ci 1, ci 2]) (some (.binop .gt (.var "f") (ci 9))) [.emit (.var "f")] [.text "none"]]
+   .forS (.var "f") (.list [ci 1, ci 2]) (some (.binop .gt (.var "f") (ci 9))) [.emit (.var "f")] [.text "none"],
+   -- `continue` / `break` out of `if`, `with`, set-block and filter-block bodies
+   .forS (.var "b") (.list [ci 1, ci 2, ci 3, ci 4, ci 5]) none
+     [.ifS (.binop .eq (.var "b") (ci 2)) [.continueS] [],
+      .withS [(.var "w2", .binop .mul (.var "b") (ci 10))]
+        [.setBlock "cp" [("upper", [])] [.text "x", .ifS (.binop .eq (.var "b") (ci 4)) [.breakS] [], .emit (.var "w2")],
+         .emit (.var "cp"), .text ";"],
+      .filterBlock [("lower", [])] [.text "Q", .ifS (.getattr (.var "loop") "first") [.continueS] [], .emit (.var "b")]]
+     [.text "never"],
+   .forS (.var "b") (.list [ci 1, ci 2]) (some (.binop .gt (.var "b") (ci 1))) [.breakS] [.text "E"]]
 
-example : MJ.Compile.simpleBlock fragProg = true := by decide +kernel
+example : MJ.Compile.simpleBlock false fragProg = true := by decide +kernel
 example : (MJ.Compile.compileTemplate fragProg).isSome = true := by decide +kernel
-example : (renderTemplate defaultFuel [("m", .map [("k", .str "v")])] fragProg).toOption = some "OK[5, 'v']10:3,7:2,5:1.5Falsep1q2|empty|ab5xy5TrueFalse1232none" := by
+example : (renderTemplate defaultFuel [("m", .map [("k", .str "v")])] fragProg).toOption = some "OK[5, 'v']10:3,7:2,5:1.5Falsep1q2|empty|ab5xy5TrueFalse1232noneX10;X30;q3" := by
   decide +kernel
 example : ((MJ.Compile.compileTemplate fragProg).bind fun code =>
-    (MJ.Vm.renderCode 1000 [("m", .map [("k", .str "v")])] code).toOption) = some "OK[5, 'v']10:3,7:2,5:1.5Falsep1q2|empty|ab5xy5TrueFalse1232none" := by
+    (MJ.Vm.renderCode 1000 [("m", .map [("k", .str "v")])] code).toOption) = some "OK[5, 'v']10:3,7:2,5:1.5Falsep1q2|empty|ab5xy5TrueFalse1232noneX10;X30;q3" := by
   decide +kernel
 
 end Examples
